@@ -60,7 +60,7 @@ CHECKS = {
        "under the file's own lock, locks never nested, no deadlock (some thread can always step until all jobs are done), "
        "termination (a measure decreases with every step), each block written at most once per file, disjoint writes commute, and "
        "every complete run writes every block's corrected and parameter window exactly once whatever the schedule "
-       "(schedule_independent) (9 theorems); source-tie: the machine's per-block program is the sequence of `with lock:` / dataset / "
+       "(schedule_independent) (11 theorems); source-tie: the machine's per-block program is the sequence of `with lock:` / dataset / "
        "fit / apply steps that harness/py2lean.py extracts from _process_block and read on every run (src_C04_prog). Tied to the code by running the real RasterFuse.process under a controlled scheduler that replaces the executor, "
        "the four locks and the four datasets from outside: 30 (quick) / 1800 (thorough) seeded schedules (random, stall-first, "
        "round-robin, starve, sticky, switch; 2-4 workers); every observed trace is replayed and accepted by the Lean machine, no "
@@ -69,7 +69,7 @@ CHECKS = {
   note="Races inside GDAL below the proxies, the GIL and memory visibility are outside the model. The controller serialises "
        "worker threads, so only interleavings at yield points (lock acquire/release, first dataset access, fit, apply, job end) are "
        "explored - which is all that matters when every shared access is under a lock, and that premise is checked per access."
-       ' Added from the seeded-change rounds: lock-set discipline (some one controlled lock held at every access to a file; locks the code creates during a run come from a factory), schedules on objects that already did a single-threaded call, a free-running stress leg (switch interval 1 us) for races between byte-codes. The lock-set check sees Python-level locks only. Since round 8: a pass-through probe counts the threads inside read / dataset_mask of the parameter dataset shared by the workers of ParamStats.stats (more than one at a time is a failing input); validate_threads is extracted and proved (never more than the processors). Round 9: compare on a 640 x 560 band (more than a megabyte) with the finer grid forced, 1 / 2 / 4 threads - the partition is a matter of max_block_mem alone. Round 10: 3 inputs found by a bug-hunting sub-agent on the unchanged code (harness/found/C04_demo*.py: GDAL block cache under pressure) are replayed by this check on every run; they are listed in known_findings.json by script name. Round 11: min / max of parameter bands with empty tiles inside the data window under 1 / 2 / 4 threads and under reversed / shuffled completion orders (a lazy executor). Round 12: two real workers ordered by events so that another block\'s fit() completes between a block\'s own fit() and apply() (the one model object is shared by all blocks), on images with blocks that hold no valid pixel, both processing grids.',
+       ' Added from the seeded-change rounds: lock-set discipline (some one controlled lock held at every access to a file; locks the code creates during a run come from a factory), schedules on objects that already did a single-threaded call, a free-running stress leg (switch interval 1 us) for races between byte-codes. The lock-set check sees Python-level locks only. Since round 8: a pass-through probe counts the threads inside read / dataset_mask of the parameter dataset shared by the workers of ParamStats.stats (more than one at a time is a failing input); validate_threads is extracted and proved (never more than the processors). Round 9: compare on a 640 x 560 band (more than a megabyte) with the finer grid forced, 1 / 2 / 4 threads - the partition is a matter of max_block_mem alone. Round 10: 3 inputs found by a bug-hunting sub-agent on the unchanged code (harness/found/C04_demo*.py: GDAL block cache under pressure) are replayed by this check on every run; they are listed in known_findings.json by script name. Round 11: min / max of parameter bands with empty tiles inside the data window under 1 / 2 / 4 threads and under reversed / shuffled completion orders (a lazy executor). Round 12: two real workers ordered by events so that another block\'s fit() completes between a block\'s own fit() and apply() (the one model object is shared by all blocks), on images with blocks that hold no valid pixel, both processing grids; the assumption that a block's value is a function of the block alone is a named hypothesis (SharedModel.Stateless: stateless_compute_interleaving_independent, noting_model_schedule_dependent) tied to the source text: no method of the model classes other than __init__ stores into the shared object (src_C04_model_state).',
   tech="Lean 4 proof about a scheduler state machine + trace validation of real threads under a controlled scheduler", ref='7 C04'),
  'C05': dict(
   text="Proof (Lean 4): overlap_for_kernel = ceil(k/2) = radius + 1; the kernel window of every pixel within one pixel of a "
